@@ -8,6 +8,8 @@ import orc
 
 
 def run(res, replay=None):
+    # structural tie of the propagation loops (_accumulate, cdf) of phasegen/distributions.py: translate the CURRENT source and re-check proofs/GenLoopsEquiv.v
+    import translate_step; (res.proof is not None) and translate_step.run(res.proof, pid=res.pid, tie='loops')
     rng = random.Random(res.seed)
     res.rule = ('accumulation stream: random configurations (n<=4, 1-2 demes, three models, 1-3 epochs); relations on the '
                 'implementation at 1e-9: redundant change points inserted at random times, evaluation on a refined grid '
